@@ -133,6 +133,11 @@ class SpecEval(object):
                 fs = [f for f in ex.struct_fields(b.elem) if f['name'] == e[2]]
                 base = b.addr if b.addr is not None else ('obj', b.elem, b.term)
                 return ex.ptr_term(self.st, PtrV(None, fs[0]['type'], ('fld', base, e[2], fs[0]['type'], b.elem)))
+        if e[0] == 'id' and ('&' + e[1]) in self.env:
+            p_ = self.lookup('&' + e[1])
+            if isinstance(p_, PtrV):
+                return p_
+            raise SpecError('%s: local %s is not allocated at this point' % (self.what, e[1]))
         raise SpecError('%s: cannot take address of %r' % (self.what, e))
 
     def nil_like(self, v):
@@ -538,6 +543,23 @@ class SpecEval(object):
                         rt = rts[int(m_.group(2))]['type']
                         return ex.pure_app(self.st, full, [self.ev(a) for a in args], int(m_.group(2)), ex.sort_of(rt))
             raise SpecError('%s: unknown function %s' % (self.what, name))
+        if f[0] == 'sel' and f[1][0] == 'id' and re.match(r'^(\w+)_r(\d)$', f[2]) and f[1][1] not in self.env and f[1][1] not in self.bound:
+            # result k of a pure Go method, e.g. Item.AsString_r0(item, ansi)
+            m_ = re.match(r'^(\w+)_r(\d)$', f[2])
+            full = ex.find_func(f[1][1] + '.' + m_.group(1))
+            sp = ex.find_spec(full) if full is not None else None
+            if sp is None or 'pure' not in sp.opts:
+                raise SpecError('%s: %s.%s is not a function declared pure' % (self.what, f[1][1], m_.group(1)))
+            fn_ = ex.prog.funcs.get(full)
+            idx_ = int(m_.group(2))
+            rt = fn_['results'][idx_]['type']
+            vals_ = [self.ev(a) for a in args]
+            if ex.is_string(rt):
+                sl = ex.pure_slice(self.st, full, vals_, idx_, ex.byte_tid())
+                return StrV(sl.arr, sl.off, sl.len)
+            if ex.kind(rt) == 'slice':
+                return ex.pure_slice(self.st, full, vals_, idx_, ex.U(rt)['elem'])
+            return ex.pure_app(self.st, full, vals_, idx_, ex.sort_of(rt))
         if f[0] == 'sel':
             # method-style: recv.Name(args) -> spec func "Type.Name"
             recv = self.ev(f[1])
